@@ -381,7 +381,7 @@ func run(c Case, o *lib.Obs) error {
 	defer e.Close()
 	r := &runner{c: c, e: e, cache: filepath.Join(e.Dir, "cache"), dirRef: map[int]string{}}
 	plz := e.PlzW()
-	mixed, cachedSeen, poisonMet := false, false, false
+	mixed, cachedSeen, poisonMet, cacheDirty := false, false, false, false
 	var trail []string
 	for si, st := range c.Steps {
 		ver := st.Ver % len(c.Versions)
@@ -450,7 +450,10 @@ func run(c Case, o *lib.Obs) error {
 		// A target that declares nothing is not this property's business: a corrupted cache copy is then
 		// accepted as it is (cache integrity is C12/C13). The case ends here, since what is now in plz-out
 		// and in the cache is no longer what the model thinks.
-		if len(declared) == 0 && poisoned > 0 {
+		if poisoned > 0 {
+			cacheDirty = true // corrupted entries stay in the cache until a rebuild overwrites them
+		}
+		if len(declared) == 0 && cacheDirty {
 			o.Label("ended:nothing-declared-and-cache-corrupted")
 			break
 		}
@@ -472,7 +475,9 @@ func run(c Case, o *lib.Obs) error {
 			// With nothing declared the combined hash of several outputs (or of a directory) also covers the
 			// output names, so the printed value is only comparable when something is declared or the output
 			// is one regular file.
-			comparable := len(declared) > 0 || (c.nFiles() == 1 && c.Kind != "dir")
+			// `plz hash` tolerates a mismatch on the target it is asked about, so it also reports the hash of
+			// a corrupted cache copy: only comparable while the cache is known to be intact.
+			comparable := (len(declared) > 0 || (c.nFiles() == 1 && c.Kind != "dir")) && !cacheDirty
 			if want := r.reference(c.hashFunction(), ver); comparable && want != "" && m[1] != want {
 				return lib.Failf("hash-command-disagrees", "%s: `plz hash` printed %s, reference is %s", where, m[1], want)
 			}
